@@ -44,6 +44,9 @@ def shards(tier, seed):
         sh += mk(s3, spaces.cfg_pqr(p, q, r), ('T', 2), ('T', 2), 4)
     if tier == 'quick':
         sh += mk('d=7 (lazy blade table): sparse tuples of <=3 blades', spaces.cfg_pqr(6, 0, 1), ('sparse3',), ('sparse3',), 4)
+        # null generators that are not the first ones (two of them last; one in the middle of a mixed signature)
+        sh += mk('d=7 (lazy blade table): sparse tuples of <=3 blades', spaces.cfg_pqr(5, 0, 2), ('sparse3',), ('sparse3',), 4)
+        sh += mk('d=7 (lazy blade table): sparse tuples of <=3 blades', spaces.cfg_sig([1, 1, 1, 0, 1, -1, 1]), ('sparse3',), ('sparse3',), 4)
         sh += mk('d=4: <=1-blade tuples x same', spaces.cfg_pqr(3, 0, 1), ('B',), ('B',), 2)
     if tier == 'thorough':
         for p, q, r in [(3, 0, 0), (2, 0, 1), (1, 1, 1), (0, 3, 0)]:
@@ -68,6 +71,8 @@ def shards(tier, seed):
         for d in (7, 8):
             for t in [(d, 0, 0), (d - 1, 0, 1), (d - 2, 1, 1)]:
                 sh += mk('d=7,8 (lazy blade table): sparse tuples of <=3 blades', spaces.cfg_pqr(*t), ('sparse3',), ('sparse3',), 2)
+        sh += mk('d=7,8 (lazy blade table): sparse tuples of <=3 blades', spaces.cfg_pqr(5, 0, 2), ('sparse3',), ('sparse3',), 2)
+        sh += mk('d=7,8 (lazy blade table): sparse tuples of <=3 blades', spaces.cfg_sig([1, 1, 1, 0, 1, -1, 1]), ('sparse3',), ('sparse3',), 2)
     # cross-algebra histories: all signature orderings of one dimension in ONE process, forward and backward
     for d in (1, 2):
         for order in (spaces.sig(d), list(reversed(spaces.sig(d)))):
